@@ -489,15 +489,109 @@ func x01ParkedInRead(dump, gid string) (bool, string) {
 	return false, ""
 }
 
+// x01Imminent is the targeted half of the stress (defect D19, StreamPipe.tla TimerUnlocked = TRUE): rounds of many readers at
+// once, each on its own pipe, each entering Read a few microseconds before its deadline, so that the timer armed by
+// broadcastAfter is due while the reader is still between arming it and rwCond.Wait(). Every Read must return ErrTimeout.
+// A reader that has not returned 1.5 s later is judged on evidence only: its own goroutine (by id) in sync.(*Cond).Wait
+// under the pipe's Read in two dumps in a row, the pipe (read under its lock) open, empty, deadline passed for > 1 s.
+func x01Imminent(res *kit.Result, budget time.Duration) (trials, found int64) {
+	type trial struct {
+		p    *x01Pipe
+		mode string
+		gid  atomic.Value
+		done atomic.Bool
+		n    int
+		err  error
+	}
+	rng := kit.NewRng(kit.Seed()*7919 + 5)
+	stop := time.Now().Add(budget)
+	per := 4 * runtime.GOMAXPROCS(0) // more readers than processors: a reader may also lose its processor inside the window
+	// at least 4000 reads even on a crowded machine (the reverted tree loses about one wake-up in 100-250 of them)
+	for (time.Now().Before(stop) || (trials < 4000 && time.Now().Before(stop.Add(15*time.Second)))) && found < 2 {
+		trs := make([]*trial, per)
+		var wg sync.WaitGroup
+		for i := range trs {
+			tr := &trial{mode: []string{"stream", "datagram"}[rng.Intn(2)]}
+			tr.p = x01New(tr.mode)
+			trs[i] = tr
+			ahead := time.Duration(rng.Intn(40000)) * time.Nanosecond
+			spin := rng.Intn(4000)
+			wg.Add(1)
+			go func() {
+				defer wg.Done()
+				tr.gid.Store(x01Gid())
+				tr.p.setDeadline(time.Now().Add(ahead))
+				for i := 0; i < spin; i++ {
+					_ = tr.done.Load()
+				}
+				buf := make([]byte, 16)
+				tr.n, tr.err = tr.p.read(buf)
+				tr.done.Store(true)
+			}()
+		}
+		all := make(chan struct{})
+		go func() { wg.Wait(); close(all) }()
+		select {
+		case <-all:
+		case <-time.After(1500 * time.Millisecond):
+		}
+		trials += int64(per)
+		var late []*trial
+		for _, tr := range trs {
+			if !tr.done.Load() {
+				late = append(late, tr)
+			} else if tr.err != ErrTimeout || tr.n != 0 {
+				res.Violate("pipe-timeout-wrong", fmt.Sprintf("%s pipe: Read on an empty open pipe whose deadline passes returned n=%d err=%v", tr.mode, tr.n, tr.err), map[string]any{"stress": "deadline-imminent-batch"})
+			}
+		}
+		if len(late) == 0 {
+			continue
+		}
+		d1 := x01Dump()
+		time.Sleep(50 * time.Millisecond)
+		d2 := x01Dump()
+		for _, tr := range late {
+			if tr.done.Load() {
+				continue // it was merely slow
+			}
+			g, _ := tr.gid.Load().(string)
+			p1, _ := x01ParkedInRead(d1, g)
+			p2, stack := x01ParkedInRead(d2, g)
+			closed, buffered, msgs, dl := tr.p.state()
+			if p1 && p2 && !closed && buffered == 0 && msgs == 0 && !dl.IsZero() && time.Since(dl) > time.Second {
+				found++
+				res.Violate("pipe-lost-wakeup:timer-fires-before-wait", fmt.Sprintf("%s pipe: a Read entered just before its deadline is still parked in the condition wait %v after the deadline (pipe open and empty, no timer left to wake it): lost wake-up",
+					tr.mode, time.Since(dl).Round(time.Millisecond)), map[string]any{"stress": "deadline-imminent-batch", "stack": stack})
+			} else {
+				res.Note("a reader of the batch did not return within 1.5 s but a lost wake-up is not evident (parked=%v/%v closed=%v buffered=%d): not judged", p1, p2, closed, buffered)
+				res.Stat("unjudged", 1)
+			}
+		}
+		for _, tr := range late {
+			tr.p.close()
+			tr.p.cond().Broadcast()
+		}
+		select {
+		case <-all:
+		case <-time.After(2 * time.Second):
+		}
+	}
+	return
+}
+
 func TestVerifX01Stress(t *testing.T) {
 	res := kit.NewResult()
 	defer func() { res.Save(true) }()
-	budget := 4 * time.Second
+	budget, targeted := 3*time.Second, 3*time.Second
 	if kit.Thorough() {
-		budget = 45 * time.Second
+		budget, targeted = 40*time.Second, 20*time.Second
 	}
+	itrials, ifound := x01Imminent(res, targeted)
+	res.Stat("imminent_trials", itrials)
+	res.Stat("imminent_stuck", ifound)
 	stop := time.Now().Add(budget)
 	var trials, stuck atomic.Int64
+	trials.Add(itrials)
 	// one worker at a time may hold the "somebody is being judged on a dump" token: a dump shows all goroutines
 	var judge sync.Mutex
 	var wg sync.WaitGroup
@@ -640,6 +734,7 @@ func TestVerifX01Stress(t *testing.T) {
 	res.Count("stress-deadline", true)
 	res.Count("stress-deadline-shortened", true)
 	res.Count("stress-deadline-imminent", true)
+	res.Count("stress-deadline-imminent-batch", true)
 	res.Stat("trials", trials.Load())
 	res.Sample(map[string]any{"trials": trials.Load(), "stuck_readers": stuck.Load()}, 1)
 }
